@@ -280,8 +280,9 @@ def assemble(
         assert_first_op_assembled(fjm_writer)
 
         with PrintTimer('  create binary:   ', print_time=print_time):
-            fjm_writer.write_to_file()
+            # the debugging file first: if saving it fails, no loadable .fjm is left behind by the failed assembly
             save_debugging_labels(debugging_file_path, labels)
+            fjm_writer.write_to_file()
 
     except FlipJumpException as fj_exception:
         raise fj_exception
